@@ -326,7 +326,9 @@ func ruleBatchTimer(c *Ctx, r *R) {
 	r.ok(!errReach && len(pf.Undecided) == 0, "stream.BatchFunc|no-empty-send", batcher.Pos(), "a send of an empty batch on batchC is reachable in the abstract execution of the batcher loop "+strings.Join(pf.Undecided, ";"))
 	// Batch's predicate
 	pred := c.fn("stream.Batch$1")
-	if bf := c.fn("stream.Batch"); bf != nil {
+	var predMC *ssa.MakeClosure
+	bf := c.fn("stream.Batch")
+	if bf != nil {
 		// the predicate handed to BatchFunc, whether a literal or the result of a helper that builds it
 		instrs(bf, func(_ *ssa.BasicBlock, _ int, in ssa.Instruction) {
 			call, ok := in.(*ssa.Call)
@@ -343,6 +345,9 @@ func ruleBatchTimer(c *Ctx, r *R) {
 				for _, v := range throughHelper(a) {
 					if f := resolveFuncValue(v, 0); f != nil {
 						pred = f
+						if mc, isMC := v.(*ssa.MakeClosure); isMC {
+							predMC = mc
+						}
 					}
 				}
 			}
@@ -350,11 +355,83 @@ func ruleBatchTimer(c *Ctx, r *R) {
 	}
 	if pred != nil {
 		okPred := false
-		instrs(pred, func(b *ssa.BasicBlock, i int, in ssa.Instruction) {
+		// the size the predicate compares with is Batch's own size parameter: captured by the literal, or - a method value
+		// batchSizeLimit[T](batchSize).reachedBy - the receiver the method value was made from
+		body := pred
+		var recvVal ssa.Value // what the receiver of body stands for, in Batch's terms
+		if pred.Synthetic != "" && predMC != nil && len(pred.Blocks) == 1 && len(predMC.Bindings) == 1 {
+			for _, in := range pred.Blocks[0].Instrs {
+				if call, isCall := in.(*ssa.Call); isCall {
+					if cal := staticCallee(&call.Call); cal != nil && cal.Blocks != nil && len(call.Call.Args) > 0 {
+						if fv, isFV := call.Call.Args[0].(*ssa.FreeVar); isFV && fv == pred.FreeVars[0] {
+							body, recvVal = cal, predMC.Bindings[0]
+						}
+					}
+				}
+			}
+		}
+		isBatchSize := func(v ssa.Value) bool {
+			for d := 0; d < 6; d++ {
+				switch x := v.(type) {
+				case *ssa.Convert:
+					v = x.X
+					continue
+				case *ssa.ChangeType:
+					v = x.X
+					continue
+				case *ssa.FreeVar:
+					if predMC != nil && x.Parent() == predMC.Fn {
+						for i, fv := range x.Parent().FreeVars {
+							if fv == x && i < len(predMC.Bindings) {
+								v = predMC.Bindings[i]
+							}
+						}
+						if v != ssa.Value(x) {
+							continue
+						}
+					}
+					// the literal found by name (no call site in hand): the captured variable is Batch's parameter
+					if bf != nil && x.Parent().Parent() == bf {
+						for _, bp := range bf.Params {
+							if bp.Name() == x.Name() && isIntType(bp.Type()) {
+								return true
+							}
+						}
+					}
+					return false
+				case *ssa.Parameter:
+					if recvVal != nil && x.Parent() == body && len(body.Params) > 0 && x == body.Params[0] {
+						v = recvVal
+						continue
+					}
+					return bf != nil && x.Parent() == bf && isIntType(x.Type())
+				case *ssa.UnOp:
+					// a captured variable is a cell when the compiler cannot see it is never assigned; a parameter's cell holds it
+					if al, isAl := x.X.(*ssa.Alloc); isAl && x.Op == token.MUL {
+						for _, bp := range al.Parent().Params {
+							if cellHolds(al, bp) {
+								v = bp
+							}
+						}
+						if v != ssa.Value(x) {
+							continue
+						}
+					}
+					if fv, isFV := x.X.(*ssa.FreeVar); isFV && x.Op == token.MUL {
+						v = fv
+						continue
+					}
+					return false
+				}
+				return false
+			}
+			return false
+		}
+		instrs(body, func(b *ssa.BasicBlock, i int, in ssa.Instruction) {
 			if ret, ok := in.(*ssa.Return); ok && len(ret.Results) == 1 {
 				if bin, ok := returnedValue(ret, 0).(*ssa.BinOp); ok && bin.Op == token.GEQ {
 					if call, ok := bin.X.(*ssa.Call); ok {
-						if bb, ok := call.Call.Value.(*ssa.Builtin); ok && bb.Name() == "len" && strings.Contains(path(bin.Y), "batchSize") {
+						if bb, ok := call.Call.Value.(*ssa.Builtin); ok && bb.Name() == "len" && (strings.Contains(path(bin.Y), "batchSize") || isBatchSize(bin.Y)) {
 							okPred = true
 						}
 					}
@@ -479,6 +556,7 @@ func ruleBatchElapsed(c *Ctx, r *R) {
 			}
 			found = true
 			over, under := b.Succs[overIdx], b.Succs[1-overIdx]
+			var curCall *ssa.Call // the call the predicate is asked about (its constant flags select what the callee does)
 			callsIn := func(blk *ssa.BasicBlock, pred func(f *ssa.Function) bool) bool {
 				res := false
 				for _, bb := range blk.Parent().Blocks {
@@ -487,9 +565,11 @@ func ruleBatchElapsed(c *Ctx, r *R) {
 					}
 					for _, x := range bb.Instrs {
 						if call, ok := x.(*ssa.Call); ok {
+							curCall = call
 							if cal := staticCallee(&call.Call); cal != nil && pred(cal) {
 								res = true
 							}
+							curCall = nil
 						}
 					}
 				}
@@ -538,7 +618,18 @@ func ruleBatchElapsed(c *Ctx, r *R) {
 			}
 			arms := func(f *ssa.Function) bool {
 				res := false
+				// setTimer(false) / setTimer(true): one helper for stopping and (re)arming - what this call does is what is
+				// reachable in the helper with the flag it is handed
+				var live map[*ssa.BasicBlock]bool
+				if curCall != nil {
+					if spec := constBoolArgs(f, &curCall.Call); spec != nil {
+						live = blocksReachableUnder(f, spec)
+					}
+				}
 				instrs(f, func(b *ssa.BasicBlock, i int, in ssa.Instruction) {
+					if live != nil && !live[b] {
+						return
+					}
 					if call, ok := in.(*ssa.Call); ok {
 						if cal := call.Call.StaticCallee(); cal != nil && (fname(cal) == "NewTimer" || fname(cal) == "Reset") {
 							res = true
